@@ -23,6 +23,15 @@ theorem C07_results (acts : List Act) (s : S) (hr : run init acts = some s) :
       (x.2.1 = .errEOF → x.2.2.2.1 = true) ∧ (x.2.1 = .errClosed → x.2.2.2.2 = true) :=
   (good_run acts init s good_init hr).res
 
+/-- **C07_close_error_only_when_short** (D20, fixed by 4f0ff5f in /repo: see known_findings.jsonl). "A Reader call that needs n bytes
+returns successfully once n bytes are buffered; if the connection closes FIRST it returns ErrEOF / ErrConnClosed": every call
+that returned a close error looked at the buffer AFTER it had learnt of the close (closing ≠ 0 loaded, or a closer's error
+received) and found fewer than n bytes.  In particular the history "reader sees Len() < n – the poller books the n bytes –
+the hang-up wins closeBy(poller) – reader sees closing = poller" ends in success (example below), not in ErrEOF. -/
+theorem C07_close_error_only_when_short (acts : List Act) (s : S) (hr : run init acts = some s) :
+    ∀ x ∈ s.results, (x.2.1 = .errEOF ∨ x.2.1 = .errClosed) → x.2.2.1 < x.1 :=
+  (good_run acts init s good_init hr).ef3
+
 /-- the ghosts mean what they say: `peerClosed` only after a successful `closePeer`, `userClosed` only after
 `closeUser` / `forceUser`; both imply `closing ≠ 0` from then on. -/
 theorem C07_ghosts (acts : List Act) (s : S) (hr : run init acts = some s) :
@@ -88,7 +97,16 @@ example : ((run init [.call 5 true, .rstep, .rstep, .rstep, .rstep, .rstep, .fir
     (fun s => (s.timerRunning, s.tick, s.waitSize))) = some (false, false, 0) := by rfl
 example : ((run init [.callX 5, .rstep, .rstep, .rstep]).map (fun s => (s.r, s.results, s.waitSize))) =
     some (.idle, [(5, .timeout, 0, false, false)], 0) := by rfl
-example : ((run init [.call 2 false, .rstep, .rstep, .rstep, .rstep, .closePeer, .cstep, .forceUser, .recvSlot, .rstep]).map
+example : ((run init [.call 2 false, .rstep, .rstep, .rstep, .rstep, .closePeer, .cstep, .forceUser, .recvSlot, .rstep, .rstep]).map
     (fun s => (s.results, s.closing))) = some ([(2, .errEOF, 0, true, true)], 1) := by rfl
+/-- D20's failing history on the repaired code: the running reader has seen Len() = 0, the poller books its 3 bytes, the
+hang-up wins closeBy(poller), the reader loads closing = poller, looks again and returns success (before the fix: ErrEOF);
+and a close with the bytes missing still gives the close error (the hypothesis of the theorem is satisfiable) -/
+example : ((run init [.call 3 false, .rstep, .rstep, .rstep, .deliver 3, .pstep, .pstep, .pstep, .closePeer, .cstep,
+    .rstep, .rstep, .rstep]).map (fun s => (s.r, s.results))) = some (.idle, [(3, .ok, 3, true, false)]) := by rfl
+example : ((run init [.call 3 false, .rstep, .rstep, .rstep, .rstep, .deliver 3, .pstep, .closeUser, .cstep, .recvSlot,
+    .rstep, .rstep]).map (fun s => (s.r, s.results))) = some (.idle, [(3, .ok, 3, false, true)]) := by rfl
+example : ((run init [.call 3 false, .rstep, .rstep, .rstep, .deliver 2, .pstep, .pstep, .closePeer, .cstep,
+    .rstep, .rstep, .rstep]).map (fun s => (s.r, s.results))) = some (.idle, [(3, .errEOF, 2, true, false)]) := by rfl
 
 end Netpoll.Props.C07
